@@ -1,6 +1,7 @@
 package main
 
 import (
+	"errors"
 	"fmt"
 	"go/token"
 	"go/types"
@@ -26,6 +27,11 @@ func grammarRule(c *Ctx, r *Report, rule string) {
 		name := strings.ReplaceAll(wf.FullName(), modPath+"/", "") + "<->" + rf.Name()
 		wt, err1 := g.Of(wf)
 		rt, err2 := g.Of(rf)
+		var fe *foreignStreamErr
+		if errors.As(err2, &fe) || errors.As(err1, &fe) {
+			r.Bad(rule, name, "grammar", fe.pos, "the stream is handed to "+fe.callee+", which is not an exact read/write primitive: a wrapper that buffers or transforms reads ahead of (or writes other than) what the grammar says, so the pair no longer consumes exactly the bytes written — whatever follows the snapshot in the caller's stream is lost or misaligned")
+			continue
+		}
 		if err1 != nil || err2 != nil {
 			r.Unk(rule, name, "grammar", c.Pos(g.decls[wf].Pos()), fmt.Sprintf("cannot extract the token grammar: %v %v", err1, err2))
 			continue
@@ -380,6 +386,11 @@ func checkC04(c *Ctx, r *Report, tier string) {
 	grammarRule(c, r, "C04.R4")
 	r.Rule("C04.R5", "the snapshot callback serialises the current state on every call: the bytes it returns never come from a field (cache) or a parameter", 1)
 	snapshotIsFresh(c, r, "C04.R5", "partition")
+	r.Rule("C04.R6", "replay equals restart: the partition apply tree spawns no goroutine; the restore callback always runs the state reader; log compaction keeps the snapshot's anchor entry so the first entry after a snapshot is replayed; each batch item is processed completely before the next", 5)
+	noGoroutinesInApply(c, r, "C04.R6", "partition")
+	restoreCallbackDelegates(c, r, "C04.R6", "partition", "Hnsw")
+	walCompactionKeepsAnchor(c, r, "C04.R6")
+	batchItemsProcessedOneByOne(c, r, "C04.R6")
 }
 
 // levelFromLog: the level value comes from GetLevel() of the entry or Level() of an existing vertex, possibly through
@@ -582,7 +593,7 @@ func checkC08(c *Ctx, r *Report, tier string) {
 					r.OK("C08.R4", fnName(f), fmt.Sprintf("count-loop#%d", l.order), c.Pos(inc.Pos()), "links are counted on the live side of the tombstone test, the body loop writes on the live side (C01.R1)")
 				} else {
 					// only a violation when the increment is inside this loop body proper
-					if _, isTest := l.key.Referrers(), true; isTest && len(tests) > 0 {
+					if true {
 						r.Bad("C08.R4", fnName(f), fmt.Sprintf("count-loop#%d", l.order), c.Pos(inc.Pos()), "the link count is not taken on the live side of the tombstone test while the body loop skips tombstoned links: the reader consumes the wrong number of links")
 					}
 				}
@@ -592,4 +603,5 @@ func checkC08(c *Ctx, r *Report, tier string) {
 	// R5
 	effectRule(c, r, "C08.R5", func(n string) bool { return strings.HasPrefix(n, "Hnsw.") })
 	restoreResetsBeforeSuccess(c, r, "C08.R5")
+	restoreCallbackDelegates(c, r, "C08.R5", "partition", "Hnsw")
 }
